@@ -133,6 +133,34 @@ def run(ctx):
                               exact=float(np.ravel(ex2)[i_]), error_estimate=float(ee.ravel()[i_]), **rep)
         eng['exact'] += 1
     ctx.notes.append('multivariate honesty: worst err / (1000 est + 1e-7 scale) = %.3g' % worst_h)
+    # f_value is f at the point and with the extra arguments of *this* call: one object called again with other extra arguments at
+    # the same point, and with the caller's array updated in place between the calls
+    for _ in range(ctx.budget(30, 200)):
+        m = rng.choice(['central', 'forward', 'backward', 'complex', 'multicomplex'])
+        n = rng.randint(1, 2 if m == 'multicomplex' else 3)
+        fa = lambda t, a, b=0.0: a * np.exp(0.5 * t) + b * t
+        xs = np.array([rng.uniform(0.3, 2.0) for _ in range(rng.randint(1, 3))])
+        a1, a2, b2 = rng.uniform(1, 2), rng.uniform(2, 3), rng.uniform(0.5, 1.5)
+        d = nd.Derivative(fa, n=n, method=m, full_output=True)
+        ctx.tried(('f_value-reuse', m, n, tuple(xs)))
+        try:
+            with warnings.catch_warnings():
+                warnings.simplefilter('ignore')
+                d(xs, a1)
+                _v, i2 = d(xs, a2, b=b2)
+                want2 = fa(xs, a2, b=b2)
+                xs += 0.25                      # the caller's own array, updated in place
+                _v, i3 = d(xs, a2, b=b2)
+                want3 = fa(xs, a2, b=b2)
+        except Exception as ex:
+            ctx.violation('Derivative raised %r on a repeated call' % ex, method=m, n=n)
+            continue
+        if not np.array_equal(np.asarray(i2.f_value), want2):
+            ctx.violation('f_value differs from f(x) of this call (same point, other extra arguments than in the previous call)', method=m, n=n,
+                          x=(xs - 0.25).tolist(), f_value=np.asarray(i2.f_value).tolist(), fx=want2.tolist())
+        elif not np.array_equal(np.asarray(i3.f_value), want3):
+            ctx.violation('f_value differs from f(x) of this call (the same array object, updated in place since the previous call)', method=m, n=n,
+                          x=xs.tolist(), f_value=np.asarray(i3.f_value).tolist(), fx=want3.tolist())
     ctx.search['rule'] = ('as C01 (random expression programs x methods x n x order x step options, Taylor-series oracle) with the pair '
                           '(result, error_estimate): |result - exact| <= 1000 * error_estimate + floor(method, n) * local scale, where floor is '
                           '1% of the largest clean-tree error ratio of that (method, n); record checks (f_value == f(x), error_estimate >= 0 and '
